@@ -5,6 +5,8 @@ package main
 
 const numberLess = "(github.com/openconfig/goyang/pkg/yang.Number).Less"
 
+const compBound = "composition universe: a chain of n nested containers (each with a leaf), every level placed by one of {inline, grouping+uses from another module, grouping using a nested grouping, augment from another module, choice with explicit case, choice with implicit case} under one of {module body, submodule body, rpc input, rpc output, notification}, with config true/false/absent at every level of a data tree"
+
 var errSortStub = map[string]string{"errorSort": "hErrorSortStub"}
 
 var h10Redirects = map[string]string{"ParseInt": "h10StubInt", "ParseDecimal": "h10StubDec"}
@@ -104,15 +106,35 @@ func properties() []Property {
 		{
 			ID: "C11",
 			Harnesses: []Harness{
-				{Name: "H11-2", Pkg: "yang", Fn: "H11", Quick: map[string]int{"n": 2, "bases": 2, "place": 0, "spell": 4}, Redirects: errSortStub,
+				{Name: "H11-2", Pkg: "yang", Fn: "H11", Quick: map[string]int{"n": 2, "bases": 1, "place": 0, "spell": 4}, Thorough: map[string]int{"n": 2, "bases": 2, "place": 0, "spell": 4}, Redirects: errSortStub, MaxPaths: 400000,
 					Reach: []string{"accepted", "rejected"}, MaxSteps: 50000000, TimeoutMs: 30000,
-					Bound: "2 identities placed freely in {module m1, its submodule s1, module m2 importing m1}, symbolic one-letter names (every equality pattern), 0..2 base statements each, every base spelled unprefixed / own prefix / import prefix / unknown prefix with a symbolic name (incl. an undefined one); one typedef'd identityref leaf", Outside: "more identities; mutual imports"},
-				{Name: "H11-3", Pkg: "yang", Fn: "H11", Quick: map[string]int{"n": 3, "bases": 1, "place": 1, "spell": 2}, Thorough: map[string]int{"n": 3, "bases": 2, "place": 1, "spell": 2}, Redirects: errSortStub,
+					Bound: "2 identities placed freely in {module m1, its submodule s1, module m2 importing m1}, symbolic one-letter names (every equality pattern), 0..1 (thorough 0..2) base statements each, every base spelled unprefixed / own prefix / import prefix / unknown prefix with a symbolic name (incl. an undefined one); one typedef'd identityref leaf", Outside: "more identities; mutual imports"},
+				{Name: "H11-3", Pkg: "yang", Fn: "H11", Quick: map[string]int{"n": 3, "bases": 1, "place": 1, "spell": 2}, Thorough: map[string]int{"n": 3, "bases": 2, "place": 1, "spell": 2}, Redirects: errSortStub, MaxPaths: 400000,
 					Reach: []string{"accepted", "rejected"}, MaxSteps: 50000000, TimeoutMs: 30000,
 					Bound: "3 identities in 6 placements over {m1, s1, m2}, symbolic names, 0..1 (thorough 0..2) bases each spelled unprefixed or with a foreign prefix: chains, diamonds and cycles of length up to 3 across modules and the submodule", Outside: "more identities; other placements"},
 			},
 			Assumptions: []string{"errorSort is replaced (engine side) by a pass-through stub: the harness only asks whether an error was reported; error order is C05's subject",
 				"identity names are unique within a module and its submodules (assumed)"},
+		},
+		{
+			ID: "C12",
+			Harnesses: []Harness{
+				{Name: "H12", Pkg: "yang", Fn: "H12", Quick: map[string]int{"n": 3}, Thorough: map[string]int{"n": 4}, Redirects: errSortStub,
+					Reach: []string{"processed"}, MaxSteps: 100000000, TimeoutMs: 30000,
+					Bound: compBound, Outside: "deeper chains; sibling subtrees; config statements inside rpc/action/notification (as quantified); the read-only-ness of implicit case nodes (not written in the source)"},
+			},
+			Assumptions: []string{"errorSort replaced by a pass-through stub (engine side)"},
+		},
+		{
+			ID: "C17",
+			Harnesses: []Harness{
+				{Name: "H17", Pkg: "yang", Fn: "H17", Quick: map[string]int{"n": 2}, Thorough: map[string]int{"n": 3}, Redirects: errSortStub,
+					Reach: []string{"processed"}, MaxSteps: 200000000, TimeoutMs: 30000,
+					Bound: compBound + "; every (start node, target node) pair: absolute prefixed spelling from every start whose defining module imports the tree's module, relative spelling with .. steps within a tree, and every absolute path with one step replaced by a name (zz + symbolic letter) that no node has", Outside: "start nodes defined in a module that does not import the target tree's module (the property's 'any module that imports the needed prefixes')"},
+				{Name: "H17comp", Pkg: "yang", Fn: "H17comp", Redirects: errSortStub, Reach: []string{"processed"}, MaxSteps: 200000000, TimeoutMs: 30000,
+					Bound: "the composite schema (4 modules + submodule: groupings in list/rpc/notification/augment, chained and submodule augments, implicit cases, action, rpc input/output not written in the source; 65 nodes): every start x every target x absolute/relative/one bad step", Outside: "other schemas"},
+			},
+			Assumptions: []string{"errorSort replaced by a pass-through stub (engine side)"},
 		},
 		{
 			ID: "C10",
